@@ -38,7 +38,7 @@ Definition detached (cbuf message nonce key : bytes) : outcome (bytes * bytes) :
    buffer took part in the authenticator); on Err the copied ciphertext is wiped from the caller's buffer *)
 Definition open_detached (mbuf mac ciphertext nonce key : bytes) : outcome unit * bytes :=
   let c_len := length ciphertext in
-  if (length mbuf <? c_len)%nat then (Panic, mbuf)
+  if (length mbuf <? c_len)%nat then (Err, mbuf)        (* a message buffer shorter than the ciphertext: an error (fix: commit in /repo; it used to panic on the slice) *)
   else
     match open_detached_inplace ciphertext mac nonce key with
     | (Ok _, b) => (Ok tt, b ++ skipn c_len mbuf)
